@@ -13,6 +13,7 @@ def main():
     run = vlib.Run('C07')
     run.coq_gate()
     cp.proto_component_check(run, {'C07'}, run.n(300, 8000), run.n(250, 6000))
+    cp.glue_cases(run)      # the rejoiner's MQ glue: which id the next recv() may accept after a send() (also after a declined deferred result)
     run.rule = RULE
     run.partial = PARTIAL
     run.assumptions = ['ghost provenance recorded when a wire message is read identifies the upstream publish',
